@@ -460,6 +460,12 @@ pub fn run(env: &Env) -> i32 {
     cov.insert("rule".into(), json!("one evaluation = one child run of the real binary; a project is non-trivial if it displays at least one finding and either >= 2 distinct analysis orders were reached over the hash keys tried or >= 2 definitions were analysed; distinct by hash of (files, argv, plan)"));
     cov.insert("samples".into(), json!([{"index": 0, "argv": b0.base.argv, "plan": b0.base.plan, "files": b0.world.files}]));
     cov.insert("relation_checks".into(), json!(relations));
+    {
+        let names = ["replay-identical", "clock-and-aslr", "hash-order", "reorder-definitions", "reorder-files", "missing-file-position", "directory-listing-order", "frame-add", "frame-remove", "stall-isolation"];
+        let mut probes: Vec<(&str, usize)> = names.iter().map(|k| (*k, relations.get(k).copied().unwrap_or(0))).collect();
+        probes.push(("project with two or more analysis orders", results.iter().filter(|r| r.distinct_orders >= 2).count()));
+        crate::report::add_probes(&mut cov, &probes);
+    }
     cov.insert("hash_keys_tried".into(), json!(results.iter().map(|r| r.keys_tried).sum::<usize>()));
     cov.insert("projects_with_2plus_analysis_orders".into(), json!(results.iter().filter(|r| r.distinct_orders >= 2).count()));
     cov.insert("max_distinct_analysis_orders".into(), json!(results.iter().map(|r| r.distinct_orders).max().unwrap_or(0)));
